@@ -404,18 +404,19 @@ a literal, for every positive fuel — so all theorems above are about the real 
 called with literal bindings (what SwissKnife/Converter pass for variables and constants). -/
 theorem evalX_literal_env (p : Profile) (env : Env F) (fuel : Nat) (e : Expr F) :
     evalX p (fun s => (env s).map litExpr) (fuel + 1) e = eval p env e := by
-  have lit : ∀ (envx : EnvX F) (fuel : Nat) (v : EvalResult F),
-      evalX p envx fuel (litExpr v) = .ok v := by
-    intro envx fuel v
-    cases v <;> simp [litExpr, evalX]
+  have lit : ∀ (envx : EnvX F) (vis : List String) (fuel : Nat) (v : EvalResult F),
+      evalXV p envx vis fuel (litExpr v) = .ok v := by
+    intro envx vis fuel v
+    cases v <;> simp [litExpr, evalXV]
+  unfold evalX
   induction e with
-  | binOp k l r ihl ihr => cases k <;> simp only [evalX, eval, ihl, ihr]
-  | unOp k e ih => simp only [evalX, eval, ih]
-  | ite c t e ihc iht ihe => simp only [evalX, eval, ihc, iht, ihe]
-  | int i => simp [evalX, eval]
-  | float f => simp [evalX, eval]
+  | binOp k l r ihl ihr => cases k <;> simp only [evalXV, eval, ihl, ihr]
+  | unOp k e ih => simp only [evalXV, eval, ih]
+  | ite c t e ihc iht ihe => simp only [evalXV, eval, ihc, iht, ihe]
+  | int i => simp [evalXV, eval]
+  | float f => simp [evalXV, eval]
   | ident s =>
-    simp only [evalX, eval]
+    simp only [evalXV, eval]
     cases h : env s with
     | none => simp
     | some v => simp [lit]
@@ -427,5 +428,67 @@ example : evalX (F := F) .dev (fun s => if s = "X" then some (.int 5) else none)
   simp only [Option.map_if, litExpr] at this
   rw [this]
   rfl
+
+private theorem evalBinStrict_ne_panic (k : BinOpKind) (h1 : k ≠ .and) (h2 : k ≠ .or)
+    (a b : EvalResult F) : evalBinStrict k a b ≠ .panic := by
+  intro h
+  have := evalBinStrict_ok k h1 h2 a b
+  rw [h] at this
+  simp [Spec.toSRes] at this
+
+private theorem bind_ne_panic {α β : Type} {x : R α} {f : α → R β} (hx : x ≠ .panic)
+    (hf : ∀ a, f a ≠ .panic) : (x >>= f) ≠ .panic := by
+  cases x with
+  | ok a => exact hf a
+  | err e => simp
+  | panic => exact absurd rfl hx
+
+/-- **evalX_total**: evaluation over ANY environment of expressions (`<Expression>` sub-formulas
+referring to each other in any way, cyclic ones included), any fuel and both profiles never
+panics. -/
+theorem evalX_total (p : Profile) (env : EnvX F) (vis : List String) (fuel : Nat) (e : Expr F) :
+    evalXV p env vis fuel e ≠ .panic := by
+  induction fuel generalizing vis e with
+  | zero =>
+    induction e with
+    | binOp k l r ihl ihr =>
+      cases k <;> simp only [evalXV] <;>
+        first
+        | (apply bind_ne_panic ihl; intro a; split <;>
+            first | (apply bind_ne_panic ihr; intro b; simp) | simp)
+        | (apply bind_ne_panic ihl; intro a; apply bind_ne_panic ihr; intro b
+           exact evalBinStrict_ne_panic _ (by decide) (by decide) a b)
+    | unOp k e ih => simp only [evalXV]; apply bind_ne_panic ih; intro v; simp
+    | ite c t e ihc iht ihe =>
+      simp only [evalXV]; apply bind_ne_panic ihc; intro v; split <;> assumption
+    | int i => simp [evalXV]
+    | float f => simp [evalXV]
+    | ident s => simp only [evalXV]; split <;> (try simp); split <;> simp
+  | succ fuel ihf =>
+    induction e with
+    | binOp k l r ihl ihr =>
+      cases k <;> simp only [evalXV] <;>
+        first
+        | (apply bind_ne_panic ihl; intro a; split <;>
+            first | (apply bind_ne_panic ihr; intro b; simp) | simp)
+        | (apply bind_ne_panic ihl; intro a; apply bind_ne_panic ihr; intro b
+           exact evalBinStrict_ne_panic _ (by decide) (by decide) a b)
+    | unOp k e ih => simp only [evalXV]; apply bind_ne_panic ih; intro v; simp
+    | ite c t e ihc iht ihe =>
+      simp only [evalXV]; apply bind_ne_panic ihc; intro v; split <;> assumption
+    | int i => simp [evalXV]
+    | float f => simp [evalXV]
+    | ident s => simp only [evalXV]; split <;> (try simp); split <;> (try simp); exact ihf _ _
+
+/-- **self_reference_is_error**: an identifier met again while its own bound expression is
+being evaluated is the error `InvalidNode` — not unbounded recursion. -/
+theorem self_reference_is_error (p : Profile) (env : EnvX F) (vis : List String) (fuel : Nat)
+    (s : String) (h : s ∈ vis) : evalXV p env vis fuel (.ident s) = .err .invalidNode := by
+  simp [evalXV, h]
+
+/- `<Expression Name="A">A+1</Expression>` -/
+example : evalX (F := F) .dev (fun s => if s = "A" then some (.binOp .add (.ident "A") (.int 1)) else none)
+    5 (.ident "A") = .err .invalidNode := by
+  simp [evalX, evalXV]
 
 end CamVerif.C05
